@@ -249,7 +249,54 @@ def session_step(p, n, ra, rb, b_participates, new_item, fbits, hash_length, rev
     return ok
 
 
-GLB = {"api_step": api_step, "session_step": session_step, "__name__": "harness.c13"}
+def inactive_session_step(p, n, ra, route, ci_idx):
+    """a session in which inline-snapshot is disabled (flag / CI / xdist) still starts by pruning the outsourced but
+    unreferenced -new files, and removes or persists nothing else"""
+    world.reset({})
+    p = [True if x else False for x in p]
+    n = [True if x else False for x in n]
+    ra = [True if x else False for x in ra]
+    route = 0 if route == 0 else (1 if route == 1 else 2)
+    storage = {}
+    pre = []
+    for i in range(3):
+        if p[i]:
+            storage[H[i] + SUFFIX] = DATA[i]
+            pre.append(H[i] + SUFFIX)
+        if n[i]:
+            storage[H[i] + "-new" + SUFFIX] = DATA[i]
+            pre.append(H[i] + "-new" + SUFFIX)
+    pre.sort()
+    ta = file_text(ra, -1, 12)
+    ci_var = None
+    if route == 1:
+        for k, v in enumerate(["CI", "GITHUB_ACTIONS", "TF_BUILD"]):
+            if ci_idx == k:
+                ci_var = v
+        if ci_var is None:
+            ci_var = "CI"
+    r = world.plugin_session({"test_a.py": ta}, cli="disable" if route == 0 else None, ci_var=ci_var, nproc=(2 if route == 2 else None), storage_files=storage,
+                             pyproject="[tool.inline-snapshot]\nhash-length=12\n")
+    if r.usage_error is not None or r.finish_error is not None:
+        return False
+    post = r.storage
+    ok = True
+    for x in post:
+        if "-new." in x:
+            ok = False  # nothing is outsourced in this session: every -new file is a leftover
+    for x in pre:
+        if "-new." not in x and x not in post:
+            ok = False
+    for x in post:
+        if "-new." not in x and x not in pre:
+            ok = False
+    if r.written:
+        ok = False
+    PathLog.record(f"inactive{route}{pre}{post}", nontrivial=pre != post, sample={"disabled_by": ["--inline-snapshot=disable", "CI variable", "xdist"][route], "before": [x[:8] + x[64:] for x in pre], "after": [x[:8] + x[64:] for x in post]})
+    return ok
+
+
+GLB = {"inactive_session_step": inactive_session_step, "api_step": api_step, "session_step": session_step, "__name__": "harness.c13"}
 PB = [(f"p{i}", "bool") for i in range(3)] + [(f"n{i}", "bool") for i in range(3)]
 INV = "not (p0 and n0) and not (p1 and n1) and not (p2 and n2)"
 
@@ -286,6 +333,13 @@ def conditions(tier):
         pre = [inv2, "not p1 and not n1 and not ra1 and not rb1 and not p2 and not n2 and not ra2 and not rb2 and not rb0", "not f1 and not f3", "review or not answer"]
         conds.append(Cond(name, mkfn(name, PB + RB + FB + [("review", "bool"), ("answer", "bool")], body, GLB, pre=pre), timeout=1200, group="session",
                           bounds="one real session, only item 0 in play, item 0 outsourced into an empty snapshot, references written with the complete hash (hash-length 64)"))
+    RA = [(f"ra{i}", "bool") for i in range(3)]
+    inv3 = INV + " and " + " and ".join(f"(not ra{i} or p{i})" for i in range(3))
+    for route in range(3):
+        name = f"inactive_session_{['flag', 'ci', 'xdist'][route]}"
+        body = f"return inactive_session_step([p0, p1, p2], [n0, n1, n2], [ra0, ra1, ra2], {route}, ci)"
+        conds.append(Cond(name, mkfn(name, PB + RA + [("ci", "int")], body, GLB, pre=[inv3, "0 <= ci <= 2"]), timeout=900, group="session",
+                          bounds=f"one real session disabled by {['--inline-snapshot=disable', 'a CI environment variable (symbolic which)', 'xdist (-n 2)'][route]} from every invariant-satisfying storage state of 3 items: -new leftovers are pruned, nothing else changes"))
     tw = mkfn("api_twin", PB + [("j", "int")], "return api_step([p0, p1, p2], [n0, n1, n2], 2, j, 12)", GLB, pre=[INV, "0 <= j <= 2 and n1"], post="not _")
     conds.append(Cond("api_twin", tw, timeout=60, twin=True))
     return conds
